@@ -1,6 +1,7 @@
 """C19 -- any Savable round-trips its declared members through the named loader."""
 import asyncio
 import copy
+import sys
 
 import plumpy
 from plumpy import loaders, persistence
@@ -22,7 +23,7 @@ RULE = ('class shapes: inheritance chains of depth 1-3 with auto_persist at some
 ASSUMPTIONS = ['custom loaders are constructible without arguments (the saved state records the loader class)', 'exceptions compare by type and args']
 REQUIRED = ['roundtrips', 'kinds/plain', 'kinds/method', 'kinds/savable', 'kinds/future', 'future_states/pending', 'future_states/result',
             'future_states/exception', 'future_states/cancelled', 'future_states/result-savable', 'manually_saved', 'hook_declared', 'loader/default', 'loader/global', 'loader/persave', 'loader/unknown', 'loader/ctxreuse',
-            'mutation_probes', 'inherited_checks']
+            'mutation_probes', 'inherited_checks', 'rebound_name_probes', 'second_saves_same_context']
 BOUNDS = {'quick': '150 shapes x 4 loader modes', 'thorough': '3000 shapes x 4 loader modes'}
 
 PLAIN_VALUES = [1, 's', None, [1, [2, 3]], {'k': [1, 2], 'd': {'e': 5}}, (1, 2), [], {}, ('run', [10, 20], {'depth': 1}), {'t': ([1], 2)}]
@@ -376,7 +377,39 @@ def run_case(case):
             except BaseException as exc:  # noqa: BLE001
                 viol.append(V('unknown-class-error', 'unknown-class-error:shadow:%s' % type(exc).__name__, 'a class not importable under its name raised %r '
                               'instead of ValueError' % (exc,)))
+            # ... and so is a class whose name was bound to another class since it was last saved (module reloaded, definition run
+            # again): the objects of the old class are not saved under a name that now means something else
+            mod = sys.modules[cls.__module__]
+            impostor = type(cls.__name__, (cls,), {'__module__': cls.__module__})
+            old_obj = cls(shape['members'])
+            setattr(mod, cls.__name__, impostor)
+            obs['rebound_name_probes'] = 1
+            try:
+                res = Savable.load(old_obj.save())
+                if type(res) is not cls:
+                    viol.append(V('wrong-class-loaded', 'wrong-class-loaded:rebound', 'after the name %s was bound to another class, an object of the old class was saved '
+                                  'and came back as an instance of %r' % (cls.__name__, type(res))))
+            except ValueError:
+                pass
+            except BaseException as exc:  # noqa: BLE001
+                viol.append(V('unknown-class-error', 'unknown-class-error:rebound:%s' % type(exc).__name__, 'saving an object whose class name was rebound raised %r '
+                              'instead of ValueError' % (exc,)))
+            finally:
+                setattr(mod, cls.__name__, cls)
             return _res(case, viol, obs, kinds)
+        if mode == 'persave' and obs['mutation_probes']:
+            # the same save context used for a second save of the (meanwhile changed) object: it saves what the object holds now
+            obs['second_saves_same_context'] = 1
+            try:
+                again = obj.save(save_ctx)
+                fresh = obj.save(persistence.LoadSaveContext(loader=CountingLoader()))
+                if norm_state(again) != norm_state(fresh):
+                    viol.append(V('stale-second-save', 'stale-second-save', 'a second save through the same save context does not hold the current values: %r, expected %r' % (
+                        norm_state(again), norm_state(fresh))))
+                if norm_state(state) != norm_state(state_copy):
+                    viol.append(V('saved-state-changed', 'saved-state-changed:second-save', 'the state saved first changed when the object was saved again'))
+            except BaseException as exc:  # noqa: BLE001
+                viol.append(V('save-raised', 'save-raised:second:%s' % type(exc).__name__, 'second save through the same context raised %r' % (exc,)))
         if mode == 'ctxreuse':
             # one caller-owned context (without a loader) reused for several loads while the global loader changes:
             # each load must resolve through the loader in force at that moment and must leave the context alone
